@@ -12,10 +12,10 @@ cd $WT || exit 2
 git stash -q 2>/dev/null; git checkout -q -- . ; git apply $DST/patch.diff || { echo "patch does not apply"; exit 2; }
 cp $DST/*_test.go . 2>/dev/null
 go build ./... || { echo "BUILD FAILS with patch"; exit 2; }
-W=$(timeout 300 go test -vet=off -count=1 -run ZZSeeded . 2>&1 | tail -3 | tr '\n' ' ')
+W=$(timeout 300 go test $SEEDED_TEST_FLAGS -vet=off -count=1 -run ZZSeeded . 2>&1 | tail -3 | tr '\n' ' ')
 echo "demo WITH patch: $W"
 git apply -R $DST/patch.diff
-WO=$(timeout 300 go test -vet=off -count=1 -run ZZSeeded . 2>&1 | tail -3 | tr '\n' ' ')
+WO=$(timeout 300 go test $SEEDED_TEST_FLAGS -vet=off -count=1 -run ZZSeeded . 2>&1 | tail -3 | tr '\n' ' ')
 echo "demo WITHOUT patch: $WO"
 git apply $DST/patch.diff
 rm -f zz_seeded_demo_test.go
